@@ -28,7 +28,7 @@ fixtab = "\n".join(f"| `{l.split(' ',1)[0]}` | {l.split(' ',1)[1]} |" for l in f
 tpl = re.sub(r"\| commit \| what \|\n\|---\|---\|\n(?:\|.*\|\n)+", "| commit | what |\n|---|---|\n" + fixtab + "\n", tpl)
 
 rows = []
-missed1 = []; nfi1 = []; missed3 = []; nfi3 = []; missed4 = []; nfi4 = []; missed5 = []; nfi5 = []; missed6 = []; nfi6 = []; missed7 = []; nfi7 = []
+missed1 = []; nfi1 = []; missed3 = []; nfi3 = []; missed4 = []; nfi4 = []; missed5 = []; nfi5 = []; missed6 = []; nfi6 = []; missed7 = []; nfi7 = []; missed8 = []; nfi8 = []
 for f in sorted(glob.glob(V + '/seeded/*/meta.json')):
     m = json.load(open(f))
     ch = re.sub(r'^(Change|C\d\d change|#+)\s*\d*\s*[-:–—.]?\s*', '', m['change']).strip()
@@ -42,7 +42,10 @@ for f in sorted(glob.glob(V + '/seeded/*/meta.json')):
         first = 'caught'
     else:
         first = 'caught' if fr['concrete_failing_input_found'] else ('caught, no input' if fr['detected'] else 'missed')
-    if m.get('round') == 7:
+    if m.get('round') == 8:
+        if first == 'missed': missed8.append(m['id'])
+        if first == 'caught, no input': nfi8.append(m['id'])
+    elif m.get('round') == 7:
         if first == 'missed': missed7.append(m['id'])
         if first == 'caught, no input': nfi7.append(m['id'])
     elif m.get('round') == 6:
@@ -70,7 +73,7 @@ for f in sorted(glob.glob(V + '/seeded/*/meta.json')):
         stren.append(f"* **{m['id']}** – {sw}")
 seeded = f'''### 13.7 Seeded breaking changes and which checks catch them
 
-Two hundred and eighty changes, fourteen per property, in seven rounds.  Each was written by a fresh sub-agent that saw
+Three hundred and twenty changes, sixteen per property, in eight rounds.  Each was written by a fresh sub-agent that saw
 only the text of one property and a scratch worktree (nothing from /verif), was asked for a
 plausible maintainer edit that needs something specific to manifest, and was confirmed by hand in
 a scratch worktree: applies to HEAD, builds, the whole existing suite passes, the demonstration
@@ -158,8 +161,17 @@ component written in a *layout* and reported with the page's path, `Response` wr
 into the caller's data map, a syntax error of a component file reported at its place of use, and function
 names with digits refused at registration.  Two of the six were oracle weaknesses of mine (the data map
 was only compared after single evaluations; a faulty file counted as identified by *any* template path),
-four were inputs no generator wrote.  Now all two hundred and eighty are reported by the quick check of
-their own property with a concrete failing input as replay.
+four were inputs no generator wrote.
+
+Round 8 (ids `-15`, `-16`) asked for one *performance* edit (a fast path, a reused buffer, memoisation,
+a cheaper library call) and one small *new feature or convenience* (a new accepted spelling, a more
+helpful message, a lenient mode) per property.  {40 - len(missed8) - len(nfi8)} of 40 were caught at once with a concrete failing input,
+{len(nfi8)} only as a broken obligation ({', '.join(nfi8)}) and {len(missed8)} were missed ({', '.join(missed8)}): a
+byte-order-mark check that slices files shorter than three bytes, an error page name trimmed by the
+*characters* of the extension, template names cut by index when the template directory is the
+working directory, and a debug-mode reload that forgets that layouts are not pages.  Now all three
+hundred and twenty are reported by the quick check of their own property with a concrete failing
+input as replay.
 
 What was added for the ones not caught (or caught without an input) at first:
 
